@@ -243,13 +243,16 @@ func auditEvaluate(c *vlib.Ctx, cs caseSpec, rec auditRecord, accs []access, ver
 	anon := strings.NewReplacer(rec.Sandbox, "{SANDBOX}", rec.Scope, "{WORK}")
 	bad := judge(rec, accs)
 	if verbose {
-		fmt.Printf("audited case: %s(%q) root={SANDBOX}/%s\n  escaping=%v error=%q\n  %d path accesses between the markers, %d outside the root\n",
-			site, rec.Name, strings.Join(cs.Chain, "/"), rec.Escaping, rec.Err, len(accs), len(bad))
+		fmt.Printf("audited case: %s(%q) root={SANDBOX}/%s root-state=%q\n  escaping=%v error=%q\n  %d path accesses between the markers, %d outside the root\n",
+			site, rec.Name, strings.Join(cs.Chain, "/"), cs.State, rec.Escaping, rec.Err, len(accs), len(bad))
 		for _, a := range accs {
 			fmt.Printf("    %s %s\n", a.call, anon.Replace(a.path))
 		}
 	}
 	out := "audit:" + cs.Comp + "." + cs.Op
+	if cs.State != "" {
+		out += "[root " + cs.State + "]"
+	}
 	if rec.Escaping {
 		out += "/escaping"
 	} else {
@@ -269,8 +272,8 @@ func auditEvaluate(c *vlib.Ctx, cs caseSpec, rec auditRecord, accs []access, ver
 			disc = "outside-access-for-escaping-name"
 		}
 		c.Violate("no-access-outside-root", site, disc,
-			fmt.Sprintf("%s(%q) root={SANDBOX}/%s (escaping=%v, returned error %q) issued system calls on paths outside the root:\n%s",
-				site, rec.Name, strings.Join(cs.Chain, "/"), rec.Escaping, rec.Err, strings.Join(l, "\n")), cs)
+			fmt.Sprintf("%s(%q) root={SANDBOX}/%s%s (escaping=%v, returned error %q) issued system calls on paths outside the root:\n%s",
+				site, rec.Name, strings.Join(cs.Chain, "/"), stateNote(cs), rec.Escaping, rec.Err, strings.Join(l, "\n")), cs)
 		out += "/outside-access"
 	} else {
 		out += "/clean"
@@ -279,7 +282,7 @@ func auditEvaluate(c *vlib.Ctx, cs caseSpec, rec auditRecord, accs []access, ver
 	c.Add(0, 1, 1)
 	c.ExtraAdd("audited_path_syscalls", int64(len(accs))) // varies slightly from run to run (temp-name collisions, runtime)
 	if rec.Escaping {
-		c.Nontrivial(fmt.Sprintf("audit|%s|%s|%v|%s%s", cs.Comp, cs.Op, cs.Chain, cs.Prefix, cs.Rel))
+		c.Nontrivial(fmt.Sprintf("audit|%s|%s|%v|%s|%s%s", cs.Comp, cs.Op, cs.Chain, cs.State, cs.Prefix, cs.Rel))
 	}
 }
 
@@ -309,6 +312,26 @@ func auditSpecs(c *vlib.Ctx) []caseSpec {
 					}
 					for _, op := range rs.ops {
 						specs = append(specs, caseSpec{Comp: rs.comp, Op: op, Chain: chain, Prefix: pf, Rel: r, Cwd: "parent"})
+					}
+				}
+			}
+		}
+	}
+	// root states (see rootStates): names of up to 2 segments
+	for _, rs := range sets {
+		if only != "" && only != rs.comp {
+			continue
+		}
+		for _, state := range rootStates[rs.comp] {
+			for _, chain := range rs.chains {
+				for _, r := range rels(chain[len(chain)-1], 2) {
+					for _, pf := range prefixes {
+						if rs.comp == "scan" && pf == prefNone {
+							continue
+						}
+						for _, op := range rs.ops {
+							specs = append(specs, caseSpec{Comp: rs.comp, Op: op, Chain: chain, Prefix: pf, Rel: r, Cwd: "parent", State: state})
+						}
 					}
 				}
 			}
@@ -392,4 +415,11 @@ func replayAudit(c *vlib.Ctx, cs caseSpec, work string) {
 		return
 	}
 	auditEvaluate(c, cs, recs[0], acc[0], true)
+}
+
+func stateNote(cs caseSpec) string {
+	if cs.State == "" {
+		return ""
+	}
+	return " root-state=" + cs.State
 }
